@@ -147,6 +147,19 @@ def hunt_segmentation(ctx, streams):
     return None
 
 
+def tls_probe():
+    """runs harness/tlsprobe.py in its own interpreter (real sockets, the real event loop)"""
+    import json, os, subprocess, sys
+    here = os.path.dirname(os.path.dirname(os.path.abspath(__file__)))
+    try:
+        out = subprocess.run([sys.executable, os.path.join(here, "tlsprobe.py")], stdout=subprocess.PIPE, stderr=subprocess.DEVNULL,
+                             timeout=60, text=True).stdout
+        line = [l for l in out.splitlines() if l.startswith("@@")]
+        return json.loads(line[-1][2:]) if line else dict(separate="probe produced no result", together="probe produced no result")
+    except Exception as e:  # noqa
+        return dict(separate=f"probe failed: {type(e).__name__}", together="probe failed")
+
+
 def run(ctx: core.Ctx):
     rng = ctx.rng
     pr = core.check_proofs(ctx, "Props/C04", headers=[HEADER])
@@ -264,6 +277,17 @@ def run(ctx: core.Ctx):
         conv_bad = conv_bad or dict(problem="reference conversation itself did not complete", log=repr(base[1]), outcome=base[2])
     samples.append(dict(kind="conversation", client_bytes=len(conv), server_bytes=len(base[0]), session_calls=len(base[1])))
 
+    # ---- the TLS hand-over over real loopback sockets: SSLRequest and ClientHello in two segments / in one -------------
+    tls = tls_probe()
+    ctx.evals += 2
+    samples.append(dict(kind="tls-hand-over", **tls))
+    if tls.get("separate") != "completed":
+        core.report_violation(ctx, "the TLS upgrade does not complete even when the ClientHello arrives in its own segment",
+                              dict(kind="tls-upgrade", **tls))
+    elif tls.get("together") != "completed":
+        core.report_violation(ctx, "the TLS upgrade depends on how the client byte stream is segmented",
+                              dict(kind="tls-hello-with-sslrequest", **tls), key="tls-hello-with-sslrequest")
+
     # ---- verdict -----------------------------------------------------------------------------------
     if conv_bad is not None:
         core.report_violation(ctx, "server conversation depends on how the client byte stream is segmented",
@@ -295,7 +319,7 @@ def run(ctx: core.Ctx):
                    disagreements=len(disagreements), exhaustive=False),
         assumptions=[
             "asyncio.StreamReader.read/readexactly semantics as modelled by hmode (CPython 3.12)",
-            "TLS hand-over (bytes buffered before start_tls) is not covered by this run: see known finding C04-tls-stranded",
+            "TLS record processing itself is the ssl module's; the hand-over is probed over loopback sockets (harness/tlsprobe.py)",
             "the fake writer stands in for the socket",
         ],
     )
